@@ -230,8 +230,8 @@ func c23(run *ev.Run) {
 
 // --- C09 (part minersc) --------------------------------------------------------------------------
 
-func c09(run *ev.Run) {
-	w := mkWorld()
+// valueAlphabet: every value-moving miner-contract operation (also used by the ledger parts C01-C05).
+func valueAlphabet(w *world.World) []chainsim.Action {
 	acts := []chainsim.Action{
 		lock(w, "c0", "m0", 10), lock(w, "c2", "m0", 100), lock(w, "c2", "s1", 50), lock(w, "c0", "m0", 101),
 		unlock(w, "c0", "m0"), unlock(w, "c1", "s0"), unlock(w, "c2", "m0"),
@@ -246,6 +246,12 @@ func c09(run *ev.Run) {
 		f := w.Actors["c0"]
 		return &world.TxnSpec{From: f, To: minerSC, Value: 7, Fee: 3, Nonce: x.Nonce(f) + 1}
 	}})
+	return acts
+}
+
+func c09(run *ev.Run) {
+	w := mkWorld()
+	acts := valueAlphabet(w)
 	run.Rule = "BFS over all sequences up to the depth bound of every value-moving miner-contract operation (lock, unlock, collect_reward, fee payment with and without fees / wrong caller, kill, settings updates incl. block reward, failing call with value, plain transfer to the contract wallet) from a staked root; oracle after every transition: increase of (all delegate balances + all unpaid rewards of all miners and sharders) <= increase of the contract wallet + (block fees + block reward of an accepted fee payment)"
 	explorePhases(run, w, []phase{
 		{"minersc", acts, [][]chainsim.Action{rootStaked(w), append(rootStaked(w), payFees(w, 0, "m0", 0, "c2", 7))}, run.Pick(3, 4), secs(run, 50, 780)},
